@@ -72,6 +72,8 @@ struct Job {
     expected: Option<Vec<String>>,
     oracle: Option<String>,
     model: Option<(String, usize)>,
+    /// `heapalias` request: the answer is all printed lines joined by `;`
+    alias_model: Option<String>,
     scheds: Vec<Schedule>,
 }
 
@@ -108,6 +110,7 @@ fn gen_value_job(rng: &mut Rng, i: usize) -> Job {
             expected: Some(vec![sexpr(&v), sexpr(&tv), sexpr(&mv)]),
             oracle: None,
             model: Some((sexpr(&v), 0)),
+            alias_model: None,
             scheds: schedules(rng),
         }
     } else {
@@ -130,6 +133,7 @@ fn gen_value_job(rng: &mut Rng, i: usize) -> Job {
             expected: Some(vec![sexpr(&v), sexpr(&rv), sexpr(&tv)]),
             oracle: None,
             model: Some((sexpr(&v), 0)),
+            alias_model: None,
             scheds: schedules(rng),
         }
     }
@@ -143,7 +147,7 @@ fn gen_pc_job(rng: &mut Rng) -> Job {
         src = src.replacen(PC_PRELUDE, &format!("{PC_PRELUDE}let never: channel<int> = channel()\ntask {{\n  let z = never.read()\n}}\n"), 1);
         class.push_str(":+blocked-reader");
     }
-    Job { src, class, expected: None, oracle: Some(info.seq_src), model: None, scheds: schedules(rng) }
+    Job { src, class, expected: None, oracle: Some(info.seq_src), model: None, alias_model: None, scheds: schedules(rng) }
 }
 
 struct Res {
@@ -180,6 +184,19 @@ fn main() {
     for i in 0..n {
         jobs.push(gen_value_job(&mut ctx.rng, i));
         jobs.push(gen_pc_job(&mut ctx.rng));
+        if i % 3 == 0 {
+            // shared and cyclic payloads (a channel read copies with a fresh map, fix 0cb8741)
+            let c = gen_alias_channel(&mut ctx.rng, i / 3);
+            jobs.push(Job {
+                src: c.src,
+                class: format!("value:{}:graph", c.class.replace(':', "-")),
+                expected: Some(c.expected),
+                oracle: None,
+                model: None,
+                alias_model: c.model,
+                scheds: schedules(&mut ctx.rng),
+            });
+        }
     }
     let results = par_map(&jobs, |j| {
         let mk = match compile_program(&j.src) {
@@ -211,7 +228,7 @@ fn main() {
         if cls.len() > 3 {
             ctx.count("with-blocked-reader");
         }
-        let prog = || j.src.replace(DECLS, "").replace(PC_PRELUDE, "").replace('\n', "\\n");
+        let prog = || j.src.replace(DECLS, "").replace(ALIAS_DECLS, "").replace(PC_PRELUDE, "").replace('\n', "\\n");
         if let Some(e) = &r.rejected {
             ctx.count("rejected");
             if ctx.notes.len() < 5 {
@@ -257,6 +274,10 @@ fn main() {
         ctx.count(if ok { "delivered:ok" } else { "delivered:NO" });
         if let Some((req, ans)) = r.trace {
             ctx.case(req, ans);
+        }
+        if let (Some(req), Some(first)) = (&j.alias_model, r.runs.first()) {
+            let lines: Vec<&str> = first.2.lines().collect();
+            ctx.case(format!("{req} #{}", cls[1]), format!("{} {}", lines.join(";"), if ok { "owned" } else { "shared" }));
         }
         if let (Some((sx, line)), Some(first)) = (&j.model, r.runs.first()) {
             if let Some(seen) = first.2.lines().nth(*line) {
